@@ -113,6 +113,7 @@ func main() {
 		{"Facts.lean", genFacts},
 		{"IntFns.lean", genIntFns},
 		{"Skeleton.lean", genSkeleton},
+		{"Guards.lean", genGuards},
 	}
 	if *jsonOut != "" {
 		b, _ := json.MarshalIndent(genSkeletonOrdered(p), "", " ")
